@@ -41,6 +41,9 @@ package acrastruct
 //@   loop 0 invariant 0 <= inIndex && inIndex <= len(inBuffer)
 //@          invariant 0 <= outIndex && outIndex <= len(outBuffer)
 //@          decreases len(inBuffer) - inIndex
+//@          step no-tag-skipped: (!itercalled(Processor.OnAcraStruct) && inIndex == beginTagIndex + 1) || (itercalled(Processor.OnAcraStruct) && inIndex == beginTagIndex + len(argof(Processor.OnAcraStruct)[1]))
+//@          step output-advances-with-copy: !itercalled(Processor.OnAcraStruct) ==> outIndex == prev(outIndex) + (beginTagIndex - prev(inIndex)) + 1
+//@   at call bytes.Index : assert sameslice(arg[0], inBuffer[inIndex:]) && sameslice(arg[1], TagBegin)
 //@   at call Processor.OnAcraStruct : assert 0 < len(arg[1]) && len(arg[1]) == dataLenOf(arg[1]) + 145
 
 //@ func DecryptAcrastruct(data []byte, privateKey *keys.PrivateKey, additionalContext []byte) (out []byte, err error)
